@@ -432,6 +432,23 @@ VARIANTS = [
      "new": "            var_data = \"<\" + \", \".join(repr(x) for x in var_val) + \">\"\n"},
     {"name": "P17 sign-aware float renderer renamed", "expect": "silent",
      "edits": [{"file": FMT, "old": "_float_repr", "new": "_repr_keeping_nan_sign", "all": True}]},
+    # ------------------------------------------------------------------ audit round 2 (anchored on the FIXED text)
+    {"name": "R17 pretty printer prints every NaN as nan again (fix reverted)", "file": HELPERS, "expect": "C11.R17",
+     "old": "        if type(obj) is float and obj != obj and math.copysign(1.0, obj) < 0:\n            return \"-nan\", True, False\n",
+     "new": ""},
+    {"name": "P17 pretty printer tests the NaN sign with isnan and copysign", "file": HELPERS, "expect": "silent",
+     "old": "        if type(obj) is float and obj != obj and math.copysign(1.0, obj) < 0:\n",
+     "new": "        if type(obj) is float and math.isnan(obj) and math.copysign(1.0, obj) == -1.0:\n"},
+    # ------------------------------------------------------------------ refactor round 8 twins
+    {"name": "P2 block suffix computed by a helper returning a module constant", "expect": "silent",
+     "edits": [{"file": FMT, "old": "class HumanMessageSerializer:\n", "new": "_VAR_SUFFIX = '  # Variable'\n\n\nclass HumanMessageSerializer:\n"},
+               {"file": FMT, "old": "            block_suffix = \"\"\n            if template and template.get_block(block_name).block_type == MsgBlockType.MBT_VARIABLE:\n"
+                                    "                block_suffix = '  # Variable'\n",
+                "new": "            block_suffix = cls._suffix_for(template, block_name)\n"},
+               {"file": FMT, "old": "    @classmethod\n    def _format_var(",
+                "new": "    @staticmethod\n    def _suffix_for(template, block_name):\n"
+                       "        if template and template.get_block(block_name).block_type == MsgBlockType.MBT_VARIABLE:\n"
+                       "            return _VAR_SUFFIX\n        return \"\"\n\n    @classmethod\n    def _format_var("}]},
     # ------------------------------------------------------------------ documented limits
     {"name": "X wrap width changed (line-wrapping details are value level)", "file": FMT, "expect": "miss",
      "old": "HippoPrettyPrinter(width=100)", "new": "HippoPrettyPrinter(width=40)"},
